@@ -135,7 +135,12 @@ var (
 
 // built fixtures: packets produced by the repository's own serializers (+ hand-made byte-order variants).
 func built(r *lib.Rand, fx *fixtures) {
-	ser := func(ls ...gopacket.SerializableLayer) []byte {
+	ser := func(ls ...gopacket.SerializableLayer) (out []byte) {
+		defer func() { // a panicking serializer must not kill the generator: the executor's monitors report it
+			if recover() != nil {
+				out = nil
+			}
+		}()
 		b := gopacket.NewSerializeBuffer()
 		if err := gopacket.SerializeLayers(b, gopacket.SerializeOptions{FixLengths: true, ComputeChecksums: true}, ls...); err != nil {
 			return nil
@@ -206,6 +211,25 @@ func gen(r *lib.Rand, tier string, emit func(string)) {
 	fx := &fixtures{}
 	built(r, fx)
 	harvest(fx)
+	for _, k := range kinds { // drop fixtures the (possibly broken) serializers could not build; never leave a kind empty
+		var keep [][]byte
+		for _, f := range fx.of(k) {
+			if len(f) >= 4 {
+				keep = append(keep, f)
+			}
+		}
+		if len(keep) == 0 {
+			keep = [][]byte{{0, 1, 8, 0, 0, 0, 0, 1, 0xaa}}
+		}
+		switch k {
+		case "arp":
+			fx.arp = keep
+		case "loopback":
+			fx.lo = keep
+		default:
+			fx.er = keep
+		}
+	}
 	foreignOf := func(n int) []byte { return r.Bytes(n) }
 	for _, k := range kinds {
 		fs := fx.of(k)
